@@ -3,7 +3,9 @@
 A case is 1..4 small generated flows of mixed types (lib/flowgen.py) and a way of writing them:
   * "save":   the Save addon's explicit `save.file` command writes flows[:k] to a fresh file and appends flows[k:] with
               the "+path" form (k generated; k == n means a single save);
-  * "stream": the Save addon in stream mode (save_stream_file) receives a generated interleaving of the flows' start
+  * "stream": (every second case with strftime fields in the path and a controlled clock that advances between hooks, so
+              that the formatted path changes between completions: see _run_stream_rotating)
+              the Save addon in stream mode (save_stream_file) receives a generated interleaving of the flows' start
               and completion hooks (request/response|error, or error alone for an HTTP exchange that fails before its
               request hook: requestheaders -> error; websocket_end, tcp/udp start/end|error, dns request/response|error),
               interleaved with runtime changes of save_stream_filter (new value, same value, toggled back; overwrite
@@ -21,6 +23,7 @@ load_flows_from_path (rfile, -r) with a master that records load_flow calls (eve
 bytes of a record end, a few really truncated files) and View.load_file (view.flows.load): exactly the k complete
 flows must arrive, in order.
 """
+import datetime
 import io
 import os
 import tempfile
@@ -110,7 +113,11 @@ def strategy(ctx):
                                     "early_error": st.lists(st.sampled_from([False, False, True]), min_size=4, max_size=4),
                                     # before step s: 0 = leave save_stream_filter alone, k = set it to _FILTERS[k-1]
                                     # (may be the value it already has, or a toggle back)
-                                    "filters": st.lists(st.sampled_from([0, 0, 0, 1, 2, 3, 4, 5, 6, 7, 2, 7]), min_size=8, max_size=8),
+                                    "filters": st.lists(st.sampled_from([0] * 9 + [1, 2, 3, 4, 5, 6, 7, 2, 7]), min_size=8, max_size=8),
+                                    # strftime fields in save_stream_file + a controlled clock: before step s the clock may
+                                    # advance by a minute, so the formatted path changes between completions
+                                    "strftime": st.sampled_from([False, True]),
+                                    "ticks": st.lists(st.sampled_from([True, True, False]), min_size=8, max_size=8),
                                     "append": st.booleans()})
     return st.one_of(save, stream)
 
@@ -283,6 +290,9 @@ def check_case(case, ctx):
                 enumerate_offsets(data, _states(flows), ctx, label)
                 final_states = _states(flows)
             else:
+                if case.get("strftime"):
+                    _run_stream_rotating(case, descs, flows, sa, tctx, d, ctx)
+                    return
                 written = _run_stream(case, descs, flows, sa, tctx, path, ctx)
                 if written is None:
                     return
@@ -293,11 +303,149 @@ def check_case(case, ctx):
                 final_states = written
         loading_paths(data, final_states, ctx, label, path)
     finally:
-        try:
-            os.unlink(path)
-        except OSError:
-            pass
+        for fn in os.listdir(d):
+            try:
+                os.unlink(os.path.join(d, fn))
+            except OSError:
+                pass
         os.rmdir(d)
+    ctx.exhaustive = True
+
+
+class _Clock:
+    """stands in for `datetime` inside mitmproxy.addons.save (the addon calls datetime.today().strftime(path))"""
+    now = datetime.datetime(2024, 5, 17, 10, 0, 0)
+
+    @classmethod
+    def today(cls):
+        return cls.now
+
+
+def _plan(case, descs):
+    """per flow: its start hook and (unless it stays open; the last flow of a rotating history may) its completion"""
+    pending, open_at_stop = [], []
+    early = case.get("early_error", [False] * 4)
+    for i in range(len(descs)):
+        kind = fg.kind_of(descs[i])
+        start, end = _hooks_for(kind, case["errors"][i % 4])
+        if kind == "http" and early[i % 4]:
+            evs = [(i, "error")]
+        else:
+            evs = [(i, start)]
+            # rotating histories are about completions under a moving clock: only the last flow may stay open
+            if case["complete"][i % 4] or i < len(descs) - 1 or i == 0:
+                evs.append((i, end))
+        if evs[-1][1] in _START_HOOKS:
+            open_at_stop.append(i)
+        pending.append(evs)
+    return pending, open_at_stop
+
+
+def _run_stream_rotating(case, descs, flows, sa, tctx, tmpdir, ctx):
+    """stream saving into a strftime-patterned path under a controlled clock.  Model: a completed matching flow is
+    written once, to the file named by the clock at its completion ("wb": a new name starts empty, "+": appends);
+    nothing else changes; no hook raises; at stop the still-open matching flows are written once (to whichever of the
+    files).  Afterwards every offset of every produced file is a crash point."""
+    pattern = os.path.join(tmpdir, "flows-%H%M")
+    name = lambda: _Clock.now.strftime(pattern)  # noqa: E731
+    real_dt = save_addon.datetime
+    save_addon.datetime = _Clock
+    _Clock.now = datetime.datetime(2024, 5, 17, 10, 0, 0)
+    files = {}          # path -> expected record states
+    try:
+        if case["append"]:
+            pre = fg.build({"type": "tcp", "comment": "pre-existing"})
+            sa.save([pre], name())
+            files[name()] = _states([pre])
+        tctx.configure(sa, save_stream_file=("+" if case["append"] else "") + pattern)
+        files.setdefault(name(), [])
+        if not case["append"]:
+            files[name()] = []
+        pending, open_at_stop = _plan(case, descs)
+        filt_plan = case.get("filters", [0] * 8)
+        cur_filter = 0
+        step = 0
+
+        def opened():
+            # the addon opens the file named by the clock when that name is new (names never repeat: the clock only
+            # moves forward), so the file starts empty in both modes
+            files.setdefault(name(), [])
+
+        def compare(tag):
+            for pth, want in files.items():
+                try:
+                    with open(pth, "rb") as fh:
+                        got, outcome = _read_all(fh.read())
+                except FileNotFoundError:
+                    got, outcome = [], "clean"
+                ctx.ev()
+                if outcome != "clean" or [fg.listify(g.get_state()) for g in got] != want:
+                    ctx.fail("rotating-stream-file-wrong:" + tag.split(" ")[0], "%s: file %s holds %d flows (%s), model expects %d" % (tag, os.path.basename(pth), len(got), outcome, len(want)))
+                    return False
+            return True
+
+        while any(pending):
+            alive = [p for p in pending if p]
+            p = alive[case["sched"][step % 8] % len(alive)]
+            ticked = case["ticks"][step % 8]
+            if ticked:
+                _Clock.now += datetime.timedelta(minutes=1)
+                ctx.cls("stream:clock-tick")
+            # a step either moves the clock or changes the filter (a configure call would re-open the file for the new
+            # minute before the next completion gets the chance to)
+            fsel = 0 if ticked else filt_plan[step % 8]
+            step += 1
+            if fsel:
+                tctx.configure(sa, save_stream_filter=_FILTERS[fsel - 1][0])
+                if fsel - 1 != cur_filter:
+                    opened()        # a configure call re-evaluates the formatted path
+                cur_filter = fsel - 1
+                if not compare("filter-change"):
+                    return
+            i, hook = p.pop(0)
+            try:
+                getattr(sa, hook)(flows[i])
+            except Exception as e:  # noqa
+                ctx.fail("stream-hook-raises:%s:%s@%s" % (hook, type(e).__name__, repo_frame(e)), "after a clock tick the %s hook of flow %d raised %r" % (hook, i, e))
+                return
+            if hook not in _START_HOOKS:
+                opened()            # save_flow re-evaluates the formatted path before writing
+                if _FILTERS[cur_filter][1](fg.kind_of(descs[i])):
+                    files[name()].append(fg.listify(flows[i].get_state()))
+                    ctx.cls("stream:rotating-completion-written")
+            if not compare(hook):
+                return
+        before = {k: list(v) for k, v in files.items()}
+        tctx.configure(sa, save_stream_file=None)
+        want_tail = [fg.listify(flows[i].get_state()) for i in open_at_stop if _FILTERS[cur_filter][1](fg.kind_of(descs[i]))]
+        tails, result = [], []
+        for pth in sorted(set(files) | {name()}):
+            try:
+                with open(pth, "rb") as fh:
+                    data = fh.read()
+            except FileNotFoundError:
+                data = b""
+            got, outcome = _read_all(data)
+            states = [fg.listify(g.get_state()) for g in got]
+            base = before.get(pth, [])
+            if outcome != "clean" or states[:len(base)] != base:
+                ctx.fail("rotating-stream-file-wrong:after-stop", "file %s: %d flows (%s), %d expected before the open flows" % (os.path.basename(pth), len(got), outcome, len(base)))
+                return
+            tails += states[len(base):]
+            result.append((data, states))
+        if sorted(map(fg.canon_repr, tails)) != sorted(map(fg.canon_repr, want_tail)):
+            ctx.fail("rotating-stream-open-flows-at-stop", "%d open matching flows, %d records appended at stop" % (len(want_tail), len(tails)))
+            return
+        ctx.cls("files:stream-rotating", len(result))
+    finally:
+        save_addon.datetime = real_dt
+        try:
+            tctx.configure(sa, save_stream_file=None)
+        except Exception:  # noqa
+            pass
+    for data, states in result:
+        if data:
+            enumerate_offsets(data, states, ctx, "stream-rotating")
     ctx.exhaustive = True
 
 
